@@ -47,11 +47,44 @@ func TestVerifC12ALPNWithoutExtension(t *testing.T) {
 			st.Violation(rt, "%s: %v", src, err)
 		}
 		defer p.CP.Close()
-		if !p.Offer.HasVersion(VersionTLS13) || len(p.Offer.ALPN) != 0 || p.Offer.Hello.Ext(16) != nil {
+		if len(p.Offer.ALPN) != 0 || p.Offer.Hello.Ext(16) != nil {
 			st.Class("alpn-on-wire-or-no-tls13")
 			return
 		}
 		sel := protos[rapid.IntRange(0, len(protos)-1).Draw(rt, "sel")]
+		if p.Offer.HasVersion(VersionTLS12) && (!p.Offer.HasVersion(VersionTLS13) || rapid.Bool().Draw(rt, "legacy_server")) {
+			// the same through a TLS 1.2 ServerHello (scripted legacy server, everything else compliant)
+			var good *vfSuiteInfo
+			for i := range vfLegacySuites {
+				si := &vfLegacySuites[i]
+				if vfContains16(p.Offer.Suites, si.ID) && len(vfCertKeysFor(p.Offer, VersionTLS12, si.Auth)) > 0 && good == nil {
+					good = si
+				}
+			}
+			if good == nil {
+				st.Class("no-good-legacy-suite")
+				return
+			}
+			scfg := vfServerConfig(vfCertKeysFor(p.Offer, VersionTLS12, good.Auth)[0], vfCertNames(sni)...)
+			scfg.MaxVersion = VersionTLS12
+			srv := Server(p.SP, scfg)
+			s12 := &vsrv12Script{Version: VersionTLS12, Canary: "none", Suite: good.ID, ALPN: &sel}
+			vsrv12Install(srv, s12)
+			pair := &vfPair{CP: p.CP, SP: p.SP, Cli: p.UC, Srv: srv}
+			cerr, _ := pair.Handshake()
+			cs := pair.Cli.ConnectionState()
+			desc := fmt.Sprintf("%s with Config.NextProtos=%q: the hello carries no ALPN extension, the TLS 1.2 ServerHello selects %q", src, protos, sel)
+			if cerr == nil || cs.HandshakeComplete || cs.NegotiatedProtocol == sel {
+				st.Violation(rt, "%s: accepted (client err=%v, NegotiatedProtocol=%q)", desc, cerr, cs.NegotiatedProtocol)
+			}
+			st.NonTrivial(fmt.Sprintf("noalpn12|%s|%v|%s", src.Name, protos, sel))
+			st.Class("alpn-without-extension-refused(tls12)")
+			return
+		}
+		if !p.Offer.HasVersion(VersionTLS13) {
+			st.Class("alpn-on-wire-or-no-tls13")
+			return
+		}
 		s := &vsrvScript{ALPN: &sel}
 		keys := vfCertKeysFor(p.Offer, VersionTLS13, "")
 		if len(keys) == 0 {
